@@ -452,6 +452,11 @@ func (p *Path) obligation(cond *Term, kind, label, site, pos, detail string) {
 	if len(p.pendObl) >= 64 || p.eng.noBatch {
 		p.flushObligations()
 	}
+	if kind == "panic" && cond.IsConst() && !cond.IsTrue() {
+		// the run-time check fails on every input of this path: the real program panics here, nothing behind it runs
+		p.flushObligations()
+		p.end("panic-violation")
+	}
 }
 
 // flushObligations decides all pending obligations, in one query when they all hold. It runs before every new
